@@ -270,6 +270,20 @@ def run_loop(ctx, pid):
             for b in ("F", "S4", "I"):
                 bw.append(_e1job(D, "det", {"max_fun_evals": mfe}, seed, base=b))
     st = explore(bw, ["ans"], 0 if q else 1, sink, stats=st, name="det/budget-window")
+    # user-set fun_eval_start: budgets at and just above the documented design size (deterministic: x0, its repeat, 2^k >= fun_eval_start
+    # Sobol points, one block more when 2^k equals D)
+    ds = []
+    for D in (1, 2, 3):
+        for fes in (1, 2, 3, 4, 5, 8, 16):
+            k = int(math.ceil(math.log2(fes)))
+            if 2 ** k == D:
+                k += 1
+            rule = 2 ** k + 2
+            for extra_ in (0, 2, 5):
+                j = _e1job(D, "det", {"max_fun_evals": rule + extra_, "fun_eval_start": fes}, seed, base="S4")
+                j["n_init_rule"] = rule
+                ds.append(j)
+    st = explore(ds, ["ans"], 0, sink, stats=st, name="det/design-size-rule")
     # default tolerances, longer runs, all base policies
     lg = [_e1job(D, "det", {"max_fun_evals": 40 + 30 * D, "complete_poll": cp}, seed, base=b) for D in (1, 2) for cp in (False, True) for b in ("F", "I", "S4", "E3")]
     # small logger caches: the arrays grow repeatedly during the run (growth may fall on a search-only loop pass)
@@ -278,8 +292,13 @@ def run_loop(ctx, pid):
     st = explore(lg, ["ans"], 0, sink, stats=st, name="det/long")
     # b=2 on a window
     # threshold ties: an improvement exactly equal to the sufficient-improvement threshold is *not* sufficient
-    st = explore([_e1job(D, "det", {"tol_mesh": 2.0**-3, "complete_poll": cp}, seed) for D in (1, 2) for cp in (False, True)], ["ans"], 1, sink, stats=st,
-                 name="det/threshold-ties", alts={"ans": ["T"], "noise": [], "fit": [], "pred": []})
+    tie = [_e1job(D, "det", {"tol_mesh": 2.0**-3, "complete_poll": cp}, seed) for D in (1, 2) for cp in (False, True)]
+    # ... also where the threshold is configured differently (tol_improvement, forcing_exponent) and where an insufficient
+    # improvement does not move the incumbent (sloppy_improvement=False: the stall test must keep looking at the incumbent)
+    tie += [_e1job(D, "det", dict(o, tol_mesh=2.0**-5), seed) for D in (1, 2)
+            for o in ({"sloppy_improvement": False}, {"tol_improvement": 0.5}, {"tol_improvement": 2.0}, {"forcing_exponent": 1.0}, {"forcing_exponent": 2.0},
+                      {"sloppy_improvement": False, "accelerate_mesh_steps": 1})]
+    st = explore(tie, ["ans"], 1, sink, stats=st, name="det/threshold-ties", alts={"ans": ["T"], "noise": [], "fit": [], "pred": []})
     st = explore([_e1job(1, "det", {"tol_mesh": 2.0**-3}, seed)], ["ans"], 2, sink, stats=st, name="det/b2-window",
                  pos_ok=lambda kind, pos, res: pos < (10 if q else 16))
     # noisy modes: budget windows above the initial design, noise scripts
